@@ -345,7 +345,15 @@ impl Property for C18 {
                 n += 1;
             }
         }
-        vec![format!("49 units x try_from conversions x 4 values, 49 units x mixed operator forms, 16x16 boundary operands x integer/conversion forms, result-targeted pairs whose exact result is i64::MAX / MAX-1 / MIN / MIN+1 ({} cases)", n)]
+        // monotonicity around every whole second up to +-20 000 s (a "whole seconds are exact" shortcut makes Time -> Quantity
+        // non-monotone exactly there), and around the first powers of ten in ns
+        for k in -20_000i64..=20_000 {
+            let t = k * 1_000_000_000;
+            sink(Scenario { a: t - 1, b: t, v: 1.0, w: 1.0, unit: (0, 1), form: Form::TimeToQuantity });
+            sink(Scenario { a: t, b: t + 1, v: 1.0, w: 1.0, unit: (0, 1), form: Form::TimeToQuantity });
+            n += 2;
+        }
+        vec![format!("49 units x try_from conversions x 4 values, 49 units x mixed operator forms, 16x16 boundary operands x integer/conversion forms, result-targeted pairs whose exact result is i64::MAX / MAX-1 / MIN / MIN+1, Time -> Quantity monotone across every whole second in +-20000 s ({} cases)", n)]
     }
     fn check(s: &Scenario) -> CheckResult {
         check(s)
